@@ -56,12 +56,30 @@ def neg(t):
     if k == "cmp":
         return ("cmp", _NEG[t[1]], t[2], t[3])
     if k == "and":
-        return ("or", tuple(neg(x) for x in t[1]))
+        return mk_bool("or", [neg(x) for x in t[1]])
     if k == "or":
-        return ("and", tuple(neg(x) for x in t[1]))
+        return mk_bool("and", [neg(x) for x in t[1]])
     if k == "const" and isinstance(t[1], bool):
         return ("const", not t[1])
     return ("not", t)
+
+
+def mk_bool(k, parts):
+    """and / or with constant operands folded and nested operators of the same kind flattened."""
+    out = []
+    for x in parts:
+        if x[0] == k:
+            out.extend(x[1])
+        elif x[0] == "const" and isinstance(x[1], bool):
+            if (k == "and") != x[1]:
+                return x  # False in and / True in or decides
+        else:
+            out.append(x)
+    if not out:
+        return TRUE if k == "and" else FALSE
+    if len(out) == 1:
+        return out[0]
+    return (k, tuple(out))
 
 
 def literals(t, pol=True) -> tuple:
@@ -74,6 +92,8 @@ def literals(t, pol=True) -> tuple:
         for x in t[1]:
             out += literals(x)
         return out
+    if t == TRUE:
+        return ()
     return (t,)
 
 
@@ -225,50 +245,47 @@ def find(t, pred) -> list:
     return [x for x in subterms(t) if pred(x)]
 
 
+def map_children(t, r):
+    """Rebuild t with r applied to each direct sub-term."""
+    k = t[0]
+    if k in ("const", "param", "global", "bound", "func", "unknown", "exc", "free", "mu"):
+        return t
+    if k == "attr":
+        return ("attr", r(t[1]), t[2])
+    if k == "sub":
+        return ("sub", r(t[1]), r(t[2]))
+    if k == "slice":
+        return ("slice", r(t[1]), r(t[2]), r(t[3]))
+    if k == "call":
+        return ("call", r(t[1]), tuple(r(x) for x in t[2]), tuple((kk, r(v)) for kk, v in t[3]))
+    if k in ("bin", "cmp"):
+        return (k, t[1], r(t[2]), r(t[3]))
+    if k == "un":
+        return ("un", t[1], r(t[2]))
+    if k in ("and", "or", "tuple", "list", "set", "fstr"):
+        return (k, tuple(r(x) for x in t[1]))
+    if k in ("not", "star", "dstar", "enter", "yielded", "await"):
+        return (k, r(t[1]))
+    if k == "ite":
+        return ite(r(t[1]), r(t[2]), r(t[3]))
+    if k == "dict":
+        return ("dict", tuple((r(a), r(b)) for a, b in t[1]))
+    if k == "elem":
+        return ("elem", r(t[1]), t[2])
+    if k == "fold":
+        return ("fold", t[1], t[2], r(t[3]), r(t[4]), r(t[5]) if t[5] is not None else None)
+    if k == "comp":
+        elt = t[2]
+        elt = (r(elt[0]), r(elt[1])) if t[1] == "dict" else r(elt)
+        return ("comp", t[1], elt, tuple((pat, r(it), tuple(r(c) for c in conds)) for pat, it, conds in t[3]))
+    if k == "lambda":
+        return ("lambda", t[1], r(t[2]))
+    return t
+
+
 def rebuild(t, f):
     """Bottom-up rewrite: f is applied to every node after its children were rewritten."""
-    k = t[0]
-    if k in ("const", "param", "global", "bound", "func", "unknown", "exc", "free"):
-        return f(t)
-    r = lambda x: rebuild(x, f)  # noqa: E731
-    if k == "attr":
-        n = ("attr", r(t[1]), t[2])
-    elif k == "sub":
-        n = ("sub", r(t[1]), r(t[2]))
-    elif k == "slice":
-        n = ("slice", r(t[1]), r(t[2]), r(t[3]))
-    elif k == "call":
-        n = ("call", r(t[1]), tuple(r(x) for x in t[2]), tuple((kk, r(v)) for kk, v in t[3]))
-    elif k in ("bin", "cmp"):
-        n = (k, t[1], r(t[2]), r(t[3]))
-    elif k == "un":
-        n = ("un", t[1], r(t[2]))
-    elif k in ("and", "or", "tuple", "list", "set", "fstr"):
-        n = (k, tuple(r(x) for x in t[1]))
-    elif k in ("not", "star", "dstar", "enter", "yielded", "await"):
-        n = (k, r(t[1]))
-    elif k == "ite":
-        n = ite(r(t[1]), r(t[2]), r(t[3]))
-    elif k == "dict":
-        n = ("dict", tuple((r(a), r(b)) for a, b in t[1]))
-    elif k == "elem":
-        n = ("elem", r(t[1]), t[2])
-    elif k == "mu":
-        n = t
-    elif k == "fold":
-        n = ("fold", t[1], t[2], r(t[3]), r(t[4]), r(t[5]) if t[5] is not None else None)
-    elif k == "comp":
-        elt = t[2]
-        if t[1] == "dict":
-            elt = (r(elt[0]), r(elt[1]))
-        else:
-            elt = r(elt)
-        n = ("comp", t[1], elt, tuple((pat, r(it), tuple(r(c) for c in conds)) for pat, it, conds in t[3]))
-    elif k == "lambda":
-        n = ("lambda", t[1], r(t[2]))
-    else:
-        n = t
-    return f(n)
+    return f(map_children(t, lambda x: rebuild(x, f)))
 
 
 def substitute(t, mapping: dict):
@@ -276,6 +293,9 @@ def substitute(t, mapping: dict):
     def f(x):
         if x[0] == "param" and x[1] in mapping:
             return mapping[x[1]]
+        if x[0] == "call" and x[1] == ("global", "getattr") and len(x[2]) == 2 and not x[3] and \
+                x[2][1][0] == "const" and isinstance(x[2][1][1], str):
+            return ("attr", x[2][0], x[2][1][1])  # getattr(obj, 'name') once the name is known
         return x
     return rebuild(t, f)
 
@@ -435,6 +455,7 @@ class Summary:
         self.effects: list[Effect] = []
         self.calls: dict = {}     # call term -> list[FuncInfo]   (resolved package callees)
         self.props: dict = {}     # attr term -> list[FuncInfo]   (resolved property getters)
+        self.precise: set = set()  # call terms resolved by type inference (the rest: call-graph fallbacks, by name)
         self.final_env: dict = {}
         self.falls_through = False
         self.fall_pc = ()
@@ -532,10 +553,23 @@ class _Path:
 class TermEval:
     """Computes Summaries; cached per function."""
 
-    def __init__(self, ix: Index):
+    def __init__(self, ix: Index, cg=None):
         self.ix = ix
+        self.cg = cg   # optional whole-package call graph: resolves what type inference alone cannot (by-name dispatch)
         self._cache: dict = {}
         self._ids = itertools.count(1)
+        self._site_targets: dict = {}
+
+    def site_targets(self, func: FuncInfo, node) -> list:
+        if self.cg is None:
+            return []
+        if func not in self._site_targets:
+            m = {}
+            for cs in self.cg.sites.get(func, []):
+                if cs.kind in ("call", "method", "direct", "dispatch", "by-name", "escaping") or True:
+                    m.setdefault(id(cs.node), []).extend(t for t in cs.targets if t not in m.get(id(cs.node), []))
+            self._site_targets[func] = m
+        return self._site_targets[func].get(id(node), [])
 
     def summary(self, func: FuncInfo) -> Summary:
         key = id(func.node)
@@ -603,8 +637,8 @@ class TermEval:
         names = list(callee.param_names)
         fn, args, kwargs = call_term[1], list(call_term[2]), dict(call_term[3])
         amap = {}
-        if callee.kind in ("method", "property", "classmethod") or \
-                (callee.cls is not None and callee.kind not in ("staticmethod", "function")):
+        bound = callee.parent is None and callee.cls is not None and callee.kind != "staticmethod"
+        if bound:
             if not names:
                 return None
             recv = fn[1] if fn[0] == "attr" else ("unknown", "receiver")
@@ -615,7 +649,7 @@ class TermEval:
             return None
         a = callee.node.args
         pos = [x.arg for x in a.posonlyargs + a.args]
-        if callee.cls is not None and callee.kind != "staticmethod" and pos:
+        if bound and pos:
             pos = pos[1:]
         for p, v in zip(pos, args):
             amap[p] = v
@@ -1015,6 +1049,17 @@ class _FuncEval:
     def load_name(self, name, p, node):
         if name in p.env:
             return p.env[name]
+        # a module-level constant (possibly imported) is its value: X = ('a', 'b') ... `k in X`
+        try:
+            ent = self.ix.resolve_name(name, self.func.module)
+        except Exception:  # noqa: BLE001
+            ent = None
+        if ent is not None and ent[0] == "var" and name.isupper() or (ent is not None and ent[0] == "var"
+                                                                      and name.startswith("_") and name[1:].isupper()):
+            try:
+                return _from_python(ast.literal_eval(ent[3]))
+            except (ValueError, SyntaxError, TypeError):
+                pass
         return ("global", name)
 
     def e_Name(self, e, p):
@@ -1106,7 +1151,8 @@ class _FuncEval:
             else:
                 vals.append(v)
         p.env.update({n: v for n, v in q.env.items() if n not in p.env or p.env[n] != v})
-        return (k, tuple(vals))
+        # note: `a or b` used as a value (not a condition) keeps both operands; constants are folded only for bools
+        return mk_bool(k, vals)
 
     def e_Compare(self, e, p):
         left = self.ev(e.left, p)
@@ -1189,6 +1235,23 @@ class _FuncEval:
         args = tuple(self.ev(a, p) for a in e.args)
         kwargs = tuple((k.arg, self.ev(k.value, p)) if k.arg is not None else (None, ("dstar", self.ev(k.value, p)))
                        for k in e.keywords)
+        if fn == ("global", "getattr") and len(args) == 2 and not kwargs and args[1][0] == "const" \
+                and isinstance(args[1][1], str):
+            return ("attr", args[0], args[1][1])  # getattr(x, 'name') is x.name
+        if fn[0] == "ite":
+            # a call through a conditionally chosen function is the conditional of the calls
+            def dist(f):
+                if f[0] == "ite":
+                    return ite(f[1], dist(f[2]), dist(f[3]))
+                c = ("call", f, args, kwargs)
+                nm = f[2] if f[0] == "attr" else None
+                if nm and f[1] == SELF and self.func.cls is not None:
+                    m = self.func.cls.lookup(nm)
+                    if m is not None:
+                        self.summ.calls[c] = [m]
+                        self.summ.precise.add(c)
+                return c
+            return dist(fn)
         t = ("call", fn, args, kwargs)
         try:
             targets = self.ix.resolve_call(e, self.scope)[0]
@@ -1196,10 +1259,26 @@ class _FuncEval:
             targets = []
         targets = [f for f in (targets or []) if isinstance(f, FuncInfo)]
         if targets:
+            self.summ.precise.add(t)
+        else:
+            targets = [f for f in self.te.site_targets(self.func, e) if isinstance(f, FuncInfo)]
+        if targets:
             self.summ.calls[t] = targets
         # calls evaluated inside larger expressions still happen: record them as effects when they are method calls
         # with a mutating name or package calls (the rules look at summ.all_calls for the rest)
         return t
+
+
+def _from_python(v):
+    if isinstance(v, tuple):
+        return ("tuple", tuple(_from_python(x) for x in v))
+    if isinstance(v, list):
+        return ("list", tuple(_from_python(x) for x in v))
+    if isinstance(v, (set, frozenset)):
+        return ("set", tuple(_from_python(x) for x in sorted(v, key=repr)))
+    if isinstance(v, dict):
+        raise TypeError("dict constant")
+    return ("const", v)
 
 
 def _as_load(t):
@@ -1232,3 +1311,188 @@ def _norm_cmp(op, a, b):
     if a[0] == "const" and b[0] != "const" and op in _FLIP:
         return ("cmp", _FLIP[op], b, a)
     return ("cmp", op, a, b)
+
+
+# ------------------------------------------------------------------------------------------- inlined summaries
+def _subst_effect(e: Effect, amap: dict, pc_prefix: tuple, ctx_prefix: tuple) -> Effect:
+    sub = lambda t: substitute(t, amap) if isinstance(t, tuple) else t  # noqa: E731
+    ctx = tuple((c[0], c[1], sub(c[2])) if c[0] in ("for", "while") and c[2] is not None else
+                ((c[0], sub(c[1])) if c[0] == "with" else c) for c in e.ctx)
+    key = sub(e.key) if e.kind == "store_sub" else e.key
+    return Effect(e.kind, sub(e.base), key, sub(e.value), pc_prefix + tuple(sub(c) for c in e.pc), ctx_prefix + ctx,
+                  e.node, e.func, e.aug)
+
+
+def _inline(te: "TermEval", func: FuncInfo, depth: int, stack: tuple, stop) -> Summary:
+    base = te.summary(func)
+    out = Summary(func)
+    out.calls, out.props = dict(base.calls), dict(base.props)
+    out.falls_through, out.fall_pc, out.final_env = base.falls_through, base.fall_pc, base.final_env
+    memo: dict = {}
+
+    def callee_of(c):
+        tg = base.calls.get(c) or out.calls.get(c)
+        if not tg or len(tg) != 1:
+            return None
+        f = tg[0]
+        if f in stack or f is func or f.is_generator() or not isinstance(f.node, ast.FunctionDef):
+            return None
+        if stop is not None and stop(f):
+            return None
+        return f
+
+    def expand(t, pc, ctx, sink):
+        """Rewrite term t: package calls -> their (inlined) return term; the callee's effects go to sink first."""
+        if depth <= 0 or not isinstance(t, tuple):
+            return t
+
+        def f(orig):
+            cal = callee_of(orig) if orig[0] == "call" else None
+            x = map_children(orig, f)
+            if x is not orig and orig[0] == "call" and orig in base.calls:
+                out.calls.setdefault(x, base.calls[orig])
+            if orig[0] == "attr" and orig in base.props:
+                out.props.setdefault(x, base.props[orig])
+            if cal is None:
+                return x
+            amap = te._bind_args(cal, x)
+            if amap is None:
+                return x
+            key = (id(cal.node),)
+            if key not in memo:
+                memo[key] = _inline(te, cal, depth - 1, stack + (func,), stop)
+            cs = memo[key]
+            for ce in cs.effects:
+                sink.append(_subst_effect(ce, amap, pc, ctx))
+            for k, v in cs.calls.items():
+                out.calls.setdefault(substitute(k, amap), v)
+            for k, v in cs.props.items():
+                out.props.setdefault(substitute(k, amap), v)
+            for rpc, rt, rn in cs.raises:
+                out.raises.append((pc + tuple(substitute(c, amap) for c in rpc), substitute(rt, amap), rn))
+            return substitute(cs.return_term(), amap)
+        return f(t)
+
+    for e in base.effects:
+        sink: list = []
+        if e.kind == "raise":
+            val = expand(e.value, e.pc, e.ctx, sink)
+            out.effects.extend(sink)
+            out.effects.append(Effect("raise", None, None, val, e.pc, e.ctx, e.node, e.func))
+            continue
+        b = expand(e.base, e.pc, e.ctx, sink) if isinstance(e.base, tuple) else e.base
+        k = expand(e.key, e.pc, e.ctx, sink) if e.kind == "store_sub" else e.key
+        v = expand(e.value, e.pc, e.ctx, sink) if isinstance(e.value, tuple) else e.value
+        out.effects.extend(sink)
+        if e.kind == "call" and v[0] != "call":
+            continue  # a statement-level package call: replaced by the callee's effects
+        out.effects.append(Effect(e.kind, b, k, v, e.pc, e.ctx, e.node, e.func, e.aug))
+    for pc, t, n in base.returns:
+        sink = []
+        out.returns.append((pc, expand(t, pc, (), sink), n))
+        out.effects.extend(sink)
+    for pc, t, n in base.raises:
+        out.raises.append((pc, t, n))
+    for pc, t, n, ctx in base.yields:
+        sink = []
+        out.yields.append((pc, expand(t, pc, ctx, sink), n, ctx))
+        out.effects.extend(sink)
+    return out
+
+
+def _te_inline(self, func: FuncInfo, depth: int = 3, stop=None) -> Summary:
+    """Summary of `func` with the effects, raises and return values of the package functions it calls (uniquely
+    resolved, non-recursive, non-generator) substituted in place, `depth` levels deep: what the function does, however
+    the work is split over helpers.  Path conditions of callee effects are prefixed with the call's own condition."""
+    key = ("inl", id(func.node), depth, id(stop))
+    if key not in self._cache:
+        self._cache[key] = _inline(self, func, depth, (), stop)
+    return self._cache[key]
+
+
+TermEval.inline = _te_inline
+
+
+# ------------------------------------------------------------------------------------------ derived views
+def unroll_const_loops(items):
+    """items: iterable of (pc, term, ctx, payload).  An item inside `for x in (<constants>)` is replaced by one copy per
+    constant with each(...) substituted, and getattr(obj, '<const>') turned into obj.<const>: a loop over a fixed tuple
+    and the same statements written out are the same thing."""
+    out = []
+    for pc, t, ctx, payload in items:
+        loops = [c for c in ctx if c[0] == "for" and c[2][0] in ("tuple", "list") and
+                 all(x[0] == "const" for x in c[2][1])]
+        if not loops:
+            out.append((pc, t, ctx, payload))
+            continue
+        lp = loops[-1]
+        rest = tuple(c for c in ctx if c is not lp)
+        el = ("elem", lp[2], lp[1])
+        for const in lp[2][1]:
+            def f(x, const=const):
+                if x == el:
+                    return const
+                if x[0] == "call" and x[1] == ("global", "getattr") and len(x[2]) == 2 and x[2][1][0] == "const" \
+                        and isinstance(x[2][1][1], str) and not x[3]:
+                    return ("attr", x[2][0], x[2][1][1])
+                return x
+            out.extend(unroll_const_loops([(tuple(rebuild(c, f) for c in pc), rebuild(t, f), rest, payload)]))
+    return out
+
+
+def attr_stores(summ: Summary):
+    """Stores into object attributes in either spelling: `obj.name = v`, `setattr(obj, key, v)`.
+    -> [(obj term, key term (a ('const', name) for a fixed name), value term, Effect)]"""
+    out = []
+    for e in summ.effects:
+        if e.kind == "store_attr":
+            out.append((e.base, ("const", e.key), e.value, e))
+        elif e.kind == "call" and e.value[1] == ("global", "setattr") and len(e.value[2]) == 3:
+            out.append((e.value[2][0], e.value[2][1], e.value[2][2], e))
+        elif e.kind == "call" and e.value[1][0] == "attr" and e.value[1][2] == "__setattr__" and \
+                len(e.value[2]) in (2, 3):
+            recv = e.value[1][1]
+            args = e.value[2]
+            if len(args) == 3:      # object.__setattr__(obj, key, value)
+                out.append((args[0], args[1], args[2], e))
+            elif is_call(recv, "super") or recv == ("global", "object"):
+                out.append((SELF, args[0], args[1], e))
+            else:
+                out.append((recv, args[0], args[1], e))
+    return out
+
+
+def return_alternatives(summ: Summary) -> list:
+    """[(conditions, term)] for every value the function can return: one entry per return statement and per branch of a
+    conditional expression in it (conditions = path condition + the branch's own)."""
+    out = []
+    for pc, t, _ in summ.returns:
+        for conds, alt in alternatives(t):
+            out.append((tuple(pc) + tuple(conds), alt))
+    return out
+
+
+def raise_conditions(summ: Summary) -> list:
+    """[(conditions, exception term)] for every raise (including those of inlined callees)."""
+    seen, out = set(), []
+    for pc, t, _ in summ.raises:
+        if (pc, t) not in seen:
+            seen.add((pc, t))
+            out.append((tuple(pc), t))
+    for e in summ.effects:
+        if e.kind == "raise" and (e.pc, e.value) not in seen:
+            seen.add((e.pc, e.value))
+            out.append((tuple(e.pc), e.value))
+    return out
+
+
+def exc_name(t) -> Optional[str]:
+    if t[0] == "call":
+        return call_name(t)
+    if t[0] == "global":
+        return t[1].split(".")[-1]
+    return None
+
+
+def mentions(t, pred) -> bool:
+    return contains(t, pred)
